@@ -323,3 +323,128 @@ def replay_const_two_modules(rp):
         return bool(probs), "constants in two modules: %s" % probs[:3]
     finally:
         shutil.rmtree(d, ignore_errors=True)
+
+
+def concat_read_job(tier, timeout_ms=300000):
+    """VerilogParser.parse_cable_concatenation for `{ P1 , P2 }`: the wires returned are the bits of P1, most
+    significant first, followed by the bits of P2, most significant first -- each piece an identifier, bit-select or
+    part-select (symbolic bounds) of either of two 2-bit cables with symbolic base indices."""
+    from spydrnet.parsers.verilog.parser import VerilogParser
+    from vf.e1.vals import SOpt, compact
+    t0 = time.time()
+    name = "C06/VerilogParser.parse_cable_concatenation"
+    W = 2
+    u = Universe(dict(Netlist=0, Library=0, Definition=1, Port=0, Cable=2, Wire=2 * W, Instance=0, InnerPin=0, OuterPin=0),
+                 {}, 2 * W)
+    pre = Heap.symbolic(u).apply_shape({("Definition", 0, "_cables"): [0, 1], ("Cable", 0, "_wires"): list(range(W)),
+                                        ("Cable", 1, "_wires"): list(range(W, 2 * W))})
+    ctx = Ctx(pre.copy(), M.REAL)
+    M.listeners_none(ctx)
+    fr = Frame(None, True, {})
+    A = pre.type_constraints() + spec.inv_all(pre)
+    pieces = []
+    for k in range(2):
+        c = z3.Int("piece%d_cable" % k)
+        l, r = z3.Int("piece%d_left" % k), z3.Int("piece%d_right" % k)
+        ln, rn = z3.Bool("piece%d_left_is_none" % k), z3.Bool("piece%d_right_is_none" % k)
+        L = ITE(EQ(c, 0), pre.sc[("Cable", "_lower_index")][0], pre.sc[("Cable", "_lower_index")][1])
+        inr = lambda x, L=L: AND(GE(x, L), LT(x, ADD(L, W)))
+        # the bounds the reader hands on: both, the left one only (bit-select), or none
+        A += [OR(EQ(c, 0), EQ(c, 1)), OR(ln, inr(l)), OR(rn, inr(r)), GE(L, 0), IMPLIES(ln, rn)]
+        pieces.append((c, l, r, ln, rn, L))
+    A = [B(a) for a in A if a is not True]
+    toks = iter(["{", "x", ",", "}"])         # next: {   peek: x   next: ,   next: }
+    # (after a possibly-raising step the interpreter explores one more, infeasible, iteration: it sees "}")
+    ctx.stubs[VerilogParser.next_token] = lambda c_, f, a, k: next(toks, "}")
+    ctx.stubs[VerilogParser.peek_token] = lambda c_, f, a, k: next(toks, "}")
+    calls = []
+
+    def piece(c_, f, a, k):
+        c, l, r, ln, rn, L = pieces[min(len(calls), 1)]
+        calls.append(1)
+        return (Ref(ADD(u.base["Cable"], c), ("Cable",)), SOpt(ln, SInt(l)), SOpt(rn, SInt(r)))
+    ctx.stubs[VerilogParser.parse_variable_instantiation] = piece
+    selfv = Local(VerilogParser, {})
+    try:
+        res = compact(call_function(ctx, fr, VerilogParser.parse_cable_concatenation, [selfv], owner=VerilogParser))
+    except Unsupported as e:
+        return [result(name, INCONCLUSIVE, "E1/symheap", detail="Unsupported: %s" % e, wall_s=time.time() - t0)]
+    # expected: piece 1 bits hi..lo, then piece 2 bits hi..lo (wire slot = cable*W + index - base)
+    def span(c, l, r, ln, rn, L):
+        hi = ITE(AND(NOT(ln), NOT(rn)), MAX(l, r), ITE(NOT(ln), l, ADD(L, W - 1)))
+        lo = ITE(AND(NOT(ln), NOT(rn)), MIN(l, r), ITE(NOT(ln), l, L))
+        return hi, lo
+    (h1, l1), (h2, l2) = span(*pieces[0]), span(*pieces[1])
+    n1, n2 = ADD(SUB(h1, l1), 1), ADD(SUB(h2, l2), 1)
+    slot = lambda p, idx: ADD(u.base["Wire"], ADD(z3.IntVal(W) * p[0], SUB(idx, p[5])))
+    cs = [EQ(res.len, ADD(n1, n2))]
+    for k in range(res.cap):
+        want = ITE(LT(k, n1), slot(pieces[0], SUB(h1, k)), slot(pieces[1], SUB(h2, SUB(k, n1))))
+        cs.append(IMPLIES(LT(k, res.len), EQ(raw_ref(res.el[k]), want)))
+    tw = M.check(A, AND(NOT(ctx.exc), NOT(ctx.bound)), 60000)[0]
+    st, dt, mdl = M.check(A + [B(NOT(ctx.exc)), B(NOT(ctx.bound))], NOT(AND(*cs)), timeout_ms)
+    rp, detail = None, st
+    if st == "sat":
+        mv = lambda x: replay.mval(mdl, x)
+        rp = {"engine": "E1", "property": "C06", "kind": "concat_read", "width": W,
+              "bases": [mv(pre.sc[("Cable", "_lower_index")][i]) for i in range(2)],
+              "pieces": [[mv(c), None if mv(ln) else mv(l), None if mv(rn) else mv(r)] for c, l, r, ln, rn, L in pieces]}
+        try:
+            viol, detail = replay_concat_read(rp)
+        except Exception:
+            viol, detail = False, "replay crashed: " + traceback.format_exc()[-400:]
+        status = VIOLATED if viol else ERROR
+        if not viol:
+            detail = "counterexample did not reproduce: " + detail
+    else:
+        status = DISCHARGED if (st == "unsat" and tw == "sat") else (VACUOUS if tw != "sat" else INCONCLUSIVE)
+    return [result(name + "/pieces-in-order-each-most-significant-first", status, "E1/symheap", queries=2, solver_s=dt,
+                   bounds=dict(u.describe(), pieces=2, cable_width=W,
+                               stubs=["next_token/peek_token: the tokens { x , }",
+                                      "parse_variable_instantiation: returns the symbolic (cable, left, right) of each piece"]),
+                   functions=sorted(fn_ident(f) for f in ctx.funcs_seen), twins={"returns": tw}, detail=detail, paths=1,
+                   replay=rp if status == VIOLATED else None, wall_s=time.time() - t0)]
+
+
+def replay_concat_read(rp):
+    """a real file: leaf with a wide input, top connects it to the concatenation; read with sdn.parse"""
+    import os
+    import shutil
+    import tempfile
+    import spydrnet as sdn
+    W = rp["width"]
+    names = ["a", "b"]
+
+    def text_of(p):
+        c, l, r = p
+        return names[c] + ("" if l is None else "[%d]" % l if r is None else "[%d:%d]" % (l, r))
+
+    def bits_of(p):
+        c, l, r = p
+        base = rp["bases"][c]
+        if l is None:
+            return [(names[c], i) for i in range(base + W - 1, base - 1, -1)]
+        if r is None:
+            return [(names[c], l)]
+        return [(names[c], i) for i in range(max(l, r), min(l, r) - 1, -1)]
+    want = bits_of(rp["pieces"][0]) + bits_of(rp["pieces"][1])
+    n = len(want)
+    decl = "".join(" wire [%d:%d] %s;\n" % (rp["bases"][i] + W - 1, rp["bases"][i], names[i]) for i in range(2))
+    text = ("module leaf(i);\n input [%d:0] i;\nendmodule\nmodule top();\n%s leaf u0(.i({%s, %s}));\nendmodule\n" % (
+        n - 1, decl, text_of(rp["pieces"][0]), text_of(rp["pieces"][1])))
+    d = tempfile.mkdtemp(prefix="vf_c06_")
+    try:
+        p = os.path.join(d, "x.v")
+        open(p, "w").write(text)
+        nl = sdn.parse(p)
+        u0 = next(nl.get_instances("u0"))
+        port = next(u0.reference.get_ports("i"))
+        got = []
+        for k in range(n - 1, -1, -1):       # most significant pin first
+            pin = u0.pins[port.pins[k - port.lower_index]]
+            w = pin.wire
+            got.append(None if w is None else (w.cable.name, w.cable.wires.index(w) + w.cable.lower_index))
+        return got != want, "leaf u0(.i({%s, %s})) with a[%d..], b[%d..]: port bits msb-first joined to %s, expected %s" % (
+            text_of(rp["pieces"][0]), text_of(rp["pieces"][1]), rp["bases"][0], rp["bases"][1], got, want)
+    finally:
+        shutil.rmtree(d, ignore_errors=True)
